@@ -116,6 +116,16 @@ func runC13(r *rt.Run, tier string) {
 		maxM = 8
 	}
 	ms := genArMembers(t, r, maxM)
+	many := t.Bool(1, 60, "c13.many")
+	if many {
+		// hundreds to thousands of tiny members: nothing in the format bounds their number
+		sub := t.Sub("c13.many.stream")
+		ms = ms[:0]
+		for i, n := 0, 200+sub.Intn(2300); i < n; i++ {
+			ms = append(ms, &arMember{Name: fmt.Sprintf("m%05d", i), RawName: fmt.Sprintf("m%05d", i), Mode: "100644", Timestamp: int64(i), Data: sub.Bytes(sub.Intn(4))})
+		}
+		r.Probe("archive-with-hundreds-of-members")
+	}
 	img := renderAr(ms)
 	disk := simdisk.New(r, "archive", img)
 	disk.DrawProfile()
@@ -325,7 +335,7 @@ func runC13(r *rt.Run, tier string) {
 				continue
 			}
 			ents = append(ents, e)
-			if !transient {
+			if !transient && !many {
 				readers = append(readers, r.Go(fmt.Sprintf("R%d", j), readerTask(j, e, m)))
 			}
 			if j >= 2 && len(ms[j-1].Data)%2 == 1 {
@@ -399,7 +409,7 @@ func runC13(r *rt.Run, tier string) {
 
 	// every member's reader is its own: a position set on one is not seen on any
 	// other (empty members included, members of the other archive included)
-	if !faulty && !transient && len(ents) > 1 {
+	if !faulty && !transient && len(ents) > 1 && !many {
 		task := r.Solo("seek-independence", func() {
 			for i, e := range ents {
 				e.Data.Seek(int64(3+2*i), io.SeekStart)
@@ -493,5 +503,5 @@ func init() {
 		},
 		Assumptions: []string{"per-operation equality with the sequential member-list model is the complete check because iterator and member readers are independent objects over one immutable ReaderAt (no linearizability search needed)"},
 	})
-	propProbes["C13"] = []string{"member-larger-than-2GiB-on-a-sparse-device", "archive-is-a-window-into-a-larger-device", "seek-positions-of-all-readers-compared", "zero-length-member", "odd-member-followed-by-another", "16-byte-name", "third-member-after-an-odd-one", "eof-eager-full-read-at-end-of-file", "reader-op-overlapped-a-Next", "odd-last-member-without-pad", "blank-numeric-column", "data-looks-like-header", "name-with-trailing-slash", "name-with-interior-slash", "zero-padded-numeric-columns", "Next-retried-after-transient-error", "reader-with-sequential-state", "two-archives-iterated-concurrently"}
+	propProbes["C13"] = []string{"archive-with-hundreds-of-members", "member-larger-than-2GiB-on-a-sparse-device", "archive-is-a-window-into-a-larger-device", "seek-positions-of-all-readers-compared", "zero-length-member", "odd-member-followed-by-another", "16-byte-name", "third-member-after-an-odd-one", "eof-eager-full-read-at-end-of-file", "reader-op-overlapped-a-Next", "odd-last-member-without-pad", "blank-numeric-column", "data-looks-like-header", "name-with-trailing-slash", "name-with-interior-slash", "zero-padded-numeric-columns", "Next-retried-after-transient-error", "reader-with-sequential-state", "two-archives-iterated-concurrently"}
 }
